@@ -4,7 +4,7 @@
 cd "$(dirname "$0")/.."
 n=0; c=0
 for d in seeded/*/; do
-  id=$(basename "$d"); prop=${id%-*}
+  id=$(basename "$d"); prop=$(python3 -c "import json,sys; print(json.load(open(sys.argv[1]))[\"breaks_property\"])" "$d/meta.json")
   line=$(SEED_NO_TESTS=1 tools/seeded.sh "$d" "$prop" 2>&1 | tail -1)
   n=$((n+1))
   if echo "$line" | grep -q "rc=1"; then c=$((c+1)); echo "CAUGHT $id $line"; else echo "MISSED $id $line"; fi
